@@ -73,6 +73,14 @@ def onecs(ctx):
                 ctx.ob(rid, ok, site, "%s forwards to exactly one register operation and touches nothing itself" % f.name,
                        "" if ok else "no acquisition of m_mutex and %d forwarded call(s), %d direct access(es)" % (len(fw), len(touches)),
                        fn=f.label, inst=f.qname)
+                for st in fw:
+                    # the value a forwarder returns was produced INSIDE the callee's critical section: a callee that hands
+                    # back a reference (read(f) with f returning const T&) leaves the copy to the forwarder, after the unlock
+                    if not f.ret.rstrip().endswith("&") and f.ret != "void":
+                        byref = st.get("vk") in ("l", "x") or st.get("t", "").rstrip().endswith("&")
+                        ctx.ob(rid, not byref, f.loc(st), "%s: the value returned is materialised inside the forwarded operation" % f.name,
+                               "" if not byref else "the forwarded call yields a reference into the protected object; the copy that "
+                               "%s returns is made from it after the lock was released" % f.name, fn=f.label, inst=f.qname)
                 continue
             ok = len(acq) == 1 and acq[0][3] is True
             ctx.ob(rid, ok, site, "%s acquires m_mutex exactly once, blocking" % f.name,
